@@ -170,7 +170,8 @@ def gen_double(rng, p):
 
 # ----------------------------------------------------------------------------- oracle (T2/T3 on a written file)
 def pyparse(path):
-    with open(path, 'r', newline='') as f:
+    # strict UTF-8: a written file that is not valid UTF-8 cannot be examined (= reported)
+    with open(path, 'r', newline='', encoding='utf-8', errors='strict') as f:
         return list(csv.reader(f))
 
 
@@ -267,6 +268,29 @@ def make_synth(chk, rng, idx, kind):
     return sy
 
 
+NONASCII = ['Z\u00fcrich-Kloten', 'S\u00e3o Paulo', '\u5317\u4eac', 'ground temps in \u00b0C, \u00a9 2001 ASHRAE \u2013 x',
+            '\u00b0', 'na\u00efve "quoted" \u00e9', '\u00c5', '\U0001f321 20\u00b0', 'e\u0301', '\u00a0', '\ufeffx']
+
+
+def make_utf8(chk, rng, idx):
+    """A well-formed rural EPW whose header cells and unmodelled columns hold non-ASCII text (UTF-8 on disk)."""
+    sy = make_synth(chk, rng, idx, 'ok')
+    sy.kind = 'utf8'
+    sy.hdr[0][1] = rng.choice(NONASCII[:3])
+    sy.hdr[rng.choice([5, 6])][1] = rng.choice(NONASCII)
+    if rng.random() < 0.5:
+        sy.hdr[1].append(rng.choice(NONASCII))
+    for r in sy.rows:
+        if len(r) > 22 and rng.random() < 0.3:
+            r[rng.choice([5, 9, len(r) - 1])] = rng.choice(NONASCII)
+    text = raw_text(rng, sy.hdr + sy.rows, rng.choice(['\n', '\r\n']), last_eol=True)
+    with open(sy.path, 'w', newline='', encoding='utf-8') as f:
+        f.write(text)
+    sy.text_lf = text.replace('\r\n', '\n')
+    sy.hash = hashlib.sha256(open(sy.path, 'rb').read()).hexdigest()
+    return sy
+
+
 def run_synth(UWG, sy):
     """Drive the real write_epw. Returns (protocol line, impl answer, out_path or None, written values)."""
     if sy.default_out:
@@ -286,14 +310,18 @@ def run_synth(UWG, sy):
     m.epw_precision = sy.p
     written = [(v[0] - 273.15, v[1], v[2], v[3]) for v in sy.vals]
     res = '[' + ';'.join(frac(x) for w in written for x in w) + ']'
-    line = 'write hdr=%s rows=%s s=%d res=%s p=%d' % (enc_rows(hdr_in), enc_rows(rows_in), sy.s, res, sy.p)
+    line = None if sy.kind == 'utf8' else \
+        'write hdr=%s rows=%s s=%d res=%s p=%d' % (enc_rows(hdr_in), enc_rows(rows_in), sy.s, res, sy.p)
     out_path = None
     try:
         with contextlib.redirect_stdout(io.StringIO()):
             m.write_epw()
         out_path = m.new_epw_path
-        with open(out_path, 'r', newline='') as f:
-            ans = 'ok ' + enc(f.read())
+        if sy.kind == 'utf8':
+            ans = 'ok'
+        else:
+            with open(out_path, 'r', newline='') as f:
+                ans = 'ok ' + enc(f.read())
     except Exception as e:  # noqa
         ans = err_class(e)
     return line, ans, out_path, written, (hdr_in, rows_in)
@@ -578,6 +606,29 @@ def run(chk):
                 obad += 1
                 chk.violation('impl-violation', 'rural file modified by a failing write_epw',
                               case={'kind': kind}, observed='hash changed', expected='unchanged')
+    # non-ASCII text in header cells and unmodelled columns (UTF-8 files, UTF-8 locale): oracle only, the
+    # line protocol of the model is ASCII
+    nutf, butf = 0, 0
+    for idx in range(8 if not big else 60):
+        sy = make_utf8(chk, rng, 7000 + idx)
+        _, ans, out_path, written, _ = run_synth(UWG, sy)
+        nutf += 1
+        msg = ('write_epw raised (%s) on a well-formed UTF-8 file' % ans) if not ans.startswith('ok') else \
+            oracle_file(sy.path, out_path, sy.s, written, sy.p, sy.hash)
+        if msg:
+            butf += 1
+            if butf <= 2:
+                chk.violation('impl-violation', 'T2/T3 oracle on a rural file with non-ASCII (UTF-8) text',
+                              case={'replay_kind': 'synthetic-write', 'rural_file_text': sy.text_lf,
+                                    'window_start_row': sy.s, 'hours': sy.n, 'precision': sy.p,
+                                    'values_canTemp_Tdp_canRHum_wind': [list(map(repr, w)) for w in sy.vals],
+                                    'default_output_name': sy.default_out, 'rural_name': sy.name},
+                              observed=msg, expected='only fields 6,7,8,21 of the window rows differ')
+    chk.direct('T2/T3-oracle(write_epw, non-ASCII UTF-8 cells)', nutf, nutf,
+               'rural files whose LOCATION / COMMENTS / DESIGN CONDITIONS cells and unmodelled data columns hold '
+               'accented, CJK, astral, combining, no-break-space and BOM characters, written as UTF-8; the file '
+               'written by the real write_epw is parsed as strict UTF-8 and judged by the T2/T3 oracle',
+               mismatches=butf)
     chk.correspond('read_csv~parseFile', 'C01', pf,
                    rule='the real utilities.read_csv on a synthetic rural EPW (random optional quoting of cells, '
                         'cells with commas/quotes/blanks, LF or CRLF, with/without final newline) vs Lean '
@@ -628,16 +679,49 @@ def run(chk):
                                   'model': None})
 
     # output path configured onto the rural file itself: must be refused, rural bytes unchanged
-    nprot, bprot = 0, 0
-    for idx in range(4 if chk.tier == 'quick' else 30):
+    nprot, bprot, hows = 0, 0, {}
+    HOWS = ['default-dir', 'explicit-dir', 'dotted-dir', 'symlinked-dir', 'symlinked-name', 'rural-via-symlink',
+            'hardlinked-name', 'symlink-chain', 'relative-symlink', 'updir-spelling']
+    for idx in range(len(HOWS) if chk.tier == 'quick' else 40):
         sy = make_synth(chk, rng, 9000 + idx, 'plain')
-        how = idx % 3
-        if how == 0:
+        how = HOWS[idx % len(HOWS)]
+        hows[how] = hows.get(how, 0) + 1
+        rural_arg = sy.path
+        if how == 'default-dir':
             m = UWG(sy.path, new_epw_name=sy.name)                       # default dir, rural name
-        elif how == 1:
+        elif how == 'explicit-dir':
             m = UWG(sy.path, new_epw_dir=sy.dir, new_epw_name=sy.name)   # explicit dir and name
-        else:
+        elif how == 'dotted-dir':
             m = UWG(sy.path, new_epw_dir=os.path.join(sy.dir, '.', ''), new_epw_name=sy.name)
+        elif how == 'updir-spelling':
+            m = UWG(sy.path, new_epw_dir=os.path.join(sy.dir, 'sub', '..'), new_epw_name=sy.name)
+            os.makedirs(os.path.join(sy.dir, 'sub'))
+        elif how == 'symlinked-dir':       # another directory name that is a link to the rural directory
+            ln = sy.dir + '_link'
+            os.symlink(sy.dir, ln)
+            m = UWG(sy.path, new_epw_dir=ln, new_epw_name=sy.name)
+        elif how == 'symlinked-name':      # an output name that is a link to the rural file
+            os.makedirs(os.path.join(sy.dir, 'out'))
+            os.symlink(sy.path, os.path.join(sy.dir, 'out', 'morphed.epw'))
+            m = UWG(sy.path, new_epw_dir=os.path.join(sy.dir, 'out'), new_epw_name='morphed.epw')
+        elif how == 'relative-symlink':
+            os.makedirs(os.path.join(sy.dir, 'out'))
+            os.symlink(os.path.join('..', sy.name), os.path.join(sy.dir, 'out', 'morphed.epw'))
+            m = UWG(sy.path, new_epw_dir=os.path.join(sy.dir, 'out'), new_epw_name='morphed.epw')
+        elif how == 'symlink-chain':
+            os.makedirs(os.path.join(sy.dir, 'out'))
+            os.symlink(sy.path, os.path.join(sy.dir, 'out', 'hop.epw'))
+            os.symlink(os.path.join(sy.dir, 'out', 'hop.epw'), os.path.join(sy.dir, 'out', 'morphed.epw'))
+            m = UWG(sy.path, new_epw_dir=os.path.join(sy.dir, 'out'), new_epw_name='morphed.epw')
+        elif how == 'rural-via-symlink':   # the rural file is named through a link, the output by its real name
+            os.makedirs(os.path.join(sy.dir, 'in'))
+            rural_arg = os.path.join(sy.dir, 'in', 'weather.epw')
+            os.symlink(sy.path, rural_arg)
+            m = UWG(rural_arg, new_epw_dir=sy.dir, new_epw_name=sy.name)
+        else:                              # hardlinked-name
+            os.makedirs(os.path.join(sy.dir, 'out'))
+            os.link(sy.path, os.path.join(sy.dir, 'out', 'morphed.epw'))
+            m = UWG(sy.path, new_epw_dir=os.path.join(sy.dir, 'out'), new_epw_name='morphed.epw')
         m._read_epw()
         m.UCMData = [types.SimpleNamespace(canTemp=300.0, Tdp=10.0, canRHum=50.0)]
         m.WeatherData = [types.SimpleNamespace(wind=2.0)]
@@ -652,13 +736,16 @@ def run(chk):
         nprot += 1
         if hashlib.sha256(open(sy.path, 'rb').read()).hexdigest() != sy.hash:
             bprot += 1
-            chk.violation('impl-violation', 'rural file overwritten: output path equals the rural path',
-                          case={'new_epw_dir': m._new_epw_dir, 'new_epw_name': sy.name, 'rural': sy.path},
+            chk.violation('impl-violation', 'rural file overwritten: the output path names the rural file (%s)' % how,
+                          case={'how': how, 'new_epw_dir': m._new_epw_dir, 'new_epw_name': m._new_epw_name,
+                                'rural': rural_arg},
                           observed='rural file bytes changed (write_epw raised: %s)' % raised,
                           expected='rural file never modified')
     chk.direct('rural-file-protected(output path = rural path)', nprot, nprot,
-               'write_epw with new_epw_name/new_epw_dir pointing at the rural file itself: rural bytes must be '
-               'unchanged (the repaired code raises)', mismatches=bprot)
+               'write_epw with new_epw_name/new_epw_dir naming the rural file itself - same spelling, ./ and ../ '
+               'spellings, a symlinked directory, a symlinked / chained / relative-symlinked / hard-linked output '
+               'name, the rural file given through a symlink: rural bytes must be unchanged (the repaired code '
+               'raises)', mismatches=bprot, branches=hows)
 
     # ---------------------------------------------------------------- (m) composition A: the whole pipeline
     morph.run_morph(chk)
@@ -693,7 +780,8 @@ def replay(chk, path):
         os.makedirs(sy.dir)
         sy.name = case['rural_name']
         sy.path = os.path.join(sy.dir, sy.name)
-        with open(sy.path, 'w', newline='') as f:
+        sy.kind = 'ok' if case['rural_file_text'].isascii() else 'utf8'
+        with open(sy.path, 'w', newline='', encoding='utf-8') as f:
             f.write(case['rural_file_text'])
         sy.hash = hashlib.sha256(open(sy.path, 'rb').read()).hexdigest()
         sy.s, sy.p, sy.hdr_cut = case['window_start_row'], case['precision'], None
